@@ -385,3 +385,16 @@ def rfield(v):
 def results(r):
     fields = ct.lst([f'({cstr(k)}, {rfield(v)})' for k, v in vars(r).items()])
     return f'(Res {cstr(type(r).__module__)} {cstr(type(r).__qualname__)} {fields})'
+
+
+def history(hist):
+    """A builder history (c12_gen.csys_history) as list (bop strG)."""
+    out = []
+    for h in hist:
+        if h[0] == 'add':
+            out.append(f'(BAC {compartment(h[1])})')
+        elif h[0] == 'flow':
+            out.append(f'(BAF {node(h[1])} {node(h[2])} {expr(h[3])})')
+        else:
+            out.append(f'(BRF {node(h[1])} {node(h[2])})')
+    return ct.lst(out)
